@@ -645,10 +645,13 @@ def run(ctx):
     P2 = ctx.prog("K2")
     ctx.guard("table", "fe32", lambda: check_tables(ctx, P2, "fe32"))
     ctx.guard("canonical", "fe32", lambda: check_canonical(ctx, P2, "fe32"))
+    from . import febounds
+    ctx.guard("fe-bounds", "fe64", lambda: febounds.check_fe64(ctx, P, "K0"))
+    ctx.guard("fe-bounds", "fe32", lambda: febounds.check_fe32(ctx, P2, "K2"))
+    ctx.guard("limbpoly", "fe32", lambda: check_field_ops(ctx, P2, "fe32", "K2"))
     if ctx.tier == "thorough":
-        ctx.guard("limbpoly", "fe32", lambda: check_field_ops(ctx, P2, "fe32", "K2"))
         ctx.guard("exponent", "fe32", lambda: C12.check_exponents(ctx, P2, "K2", "fe32"))
         ctx.guard("grouplaw", "ge/K2", lambda: check_group_law(ctx, P2))
         ctx.guard("select", "ge/K2", lambda: check_select(ctx, P2, "fe32"))
     ctx.trusted += ["definition-derived oracle cxsa/spec/curve.py", "ssa evaluator, limb-polynomial and polynomial normal forms (ssa.py, limbpoly.py, poly.py)"]
-    ctx.not_decided += ["absence of overflow / truncation inside the limb arithmetic (the proviso of the limb-polynomial identities)", "Barrett quotient estimation and the final conditional subtractions as numbers", "radix-16 / sliding-window digit arithmetic of the scalar multiplications", "canonical reduction in to_packed / to_bytes"]
+    ctx.not_decided += ["limb bounds at the call sites of the group code (the per-operation contracts and the fe64 closed invariant are decided by fe-bounds; their composition by ge.rs for fe32 is not)", "Barrett quotient estimation and the final conditional subtractions as numbers", "radix-16 / sliding-window digit arithmetic of the scalar multiplications", "canonical reduction in to_packed / to_bytes"]
